@@ -141,7 +141,7 @@ def build_proj(pd, shape):
 # --------------------------------------------------------------------------------------
 # data and containers
 # --------------------------------------------------------------------------------------
-def make_data(rng, N, shape, n, nc, lo=-3, hi=3, dup=0.3, label_kind="scalar"):
+def make_data(rng, N, shape, n, nc, lo=-3, hi=3, dup=0.3, label_kind="scalar", mode=None):
     X = rng.integers(lo, hi + 1, size=(N,) + tuple(shape)).astype(np.float32)
     for i in range(1, N):                       # duplicated points
         if rng.random() < dup:
@@ -150,8 +150,25 @@ def make_data(rng, N, shape, n, nc, lo=-3, hi=3, dup=0.3, label_kind="scalar"):
     for i in range(n):                          # queries sitting on a case (distance 0, symmetric ties)
         if rng.random() < 0.3:
             Q[i] = X[int(rng.integers(N))]
+    if mode == "sparse-dense":
+        # first rows: one large coordinate (small Euclidean norm, large max-norm); later rows: every coordinate +-1 (large
+        # Euclidean norm, small max-norm); queries near the origin.  The norms of different orders rank the cases
+        # differently, and the nearest cases for chebyshev / Minkowski p >= 3 sit in the LAST batches
+        # (added after a seeded norm-based batch pruning was missed)
+        m = int(np.prod(shape))
+        Xf = np.zeros((N, m), np.float32)
+        half = max(1, N // 2)
+        for i in range(N):
+            if i < half:
+                Xf[i, int(rng.integers(m))] = float(rng.choice([-3, 3]))
+            else:
+                Xf[i] = rng.choice([-1.0, 1.0], size=m)
+        X = Xf.reshape((N,) + tuple(shape))
+        Q = np.zeros((n,) + tuple(shape), np.float32)
     if label_kind == "scalar":
         L = (10 + np.arange(N)).astype(np.int64)
+    elif label_kind == "bigint":        # integers that float32 cannot represent (returned labels must be the originals)
+        L = (16777217 + 2 * np.arange(N)).astype(np.int64)
     elif label_kind == "float":
         L = (10 + np.arange(N)).astype(np.float32)
     else:  # "vec": one row per case (needed for unbatched single-column label datasets)
@@ -352,7 +369,7 @@ def run_case(ctx, d):
     N, shape, n, k, bs, cont = d["N"], tuple(d["shape"]), d["n"], d["k"], d["bs"], d["container"]
     nc = 3
     nflat = int(np.prod(shape))
-    X, Q, L = make_data(rng, N, shape, n, nc, dup=d.get("dup", 0.3), label_kind=d.get("labels", "scalar"))
+    X, Q, L = make_data(rng, N, shape, n, nc, dup=d.get("dup", 0.3), label_kind=d.get("labels", "scalar"), mode=d.get("dmode"))
     T, _ = make_targets(rng, N, nc, mode=d.get("tmode", "onehot"))
     QT, _ = make_targets(rng, n, nc, mode=d.get("tmode", "onehot"))
     use_labels = d.get("labels") is not None
@@ -566,6 +583,20 @@ def gen_cases(ctx):
                     cases.append(gen_one(rng, thorough, N=N, bs=bs, k=k, container="np", simple=True))
     for _ in range((2200 if thorough else 120) * scale):
         cases.append(gen_one(rng, thorough))
+    # directed: norms of different orders disagree (sparse vs dense rows), nearest cases in the last batches
+    for j in range((40 if thorough else 6) * scale):
+        N = int(rng.integers(6, 13))
+        d = gen_one(rng, thorough, N=N, bs=int(rng.integers(2, 4)), k=int(rng.integers(1, 3)),
+                    container=["np", "ds_b1", "tf"][j % 3], simple=True)
+        d.update(shape=[int(rng.integers(9, 17))], dmode="sparse-dense", dup=0.0,
+                 dist={"name": ["chebyshev", "mink3", "npinf", "mink4", "inf", "euclidean"][j % 6]})
+        d["proj"] = {"kind": "none", "mappable": False, "m": d["shape"][0]}
+        cases.append(d)
+    # labels that float32 cannot represent
+    for j in range((12 if thorough else 3) * scale):
+        d = gen_one(rng, thorough, container=["np", "ds_b2", "tf"][j % 3], simple=True)
+        d.update(labels="bigint", returns=["examples", "distances", "labels", "indices"])
+        cases.append(d)
     return cases
 
 
